@@ -331,7 +331,8 @@ def K15_ragged_lists(rep, flow: Flow):
     prog = flow.prog
     ce = CE(prog, max_steps=20_000_000)
     for data, what in ((["XZZ", "ZX", "ZIX"], "a generator shorter than the first"), (["XZZ", "ZXII", "ZIX"], "a generator longer than the first"),
-                       (["XZZ", "-ZX", "ZIX"], "a signed generator shorter than the first"), (["XZ", "ZXI", "ZIX"], "a first generator shorter than the list")):
+                       (["XZZ", "-ZX", "ZIX"], "a signed generator shorter than the first"), (["XZ", "ZXI", "ZIX"], "a first generator shorter than the list"),
+                       (["+-XZZ", "ZXI", "ZIX"], "a doubled sign prefix"), (["XZZ", "--ZXI", "ZIX"], "a doubled sign prefix"), (["XZZ", "ZXI", "-+ZIX"], "a doubled sign prefix")):
         try:
             st = _new_stabilizer(ce, prog, list(data))
         except CERaise:
@@ -880,6 +881,18 @@ def _k9_by_kernel_stub(rep, flow):
 def K9_enumeration(rep, flow: Flow):
     rep.rule("K9", "the whole span of the kernel basis is searched: (a) evaluated with the kernel routine stubbed - for kernels of 2 and 3 rows and every non-empty subset of the rows, the one valid candidate placed at that subset's sum is found; (b) where the enumeration is written as product([0,1], repeat=r) x kernel in the function itself, r is the number of kernel rows", floor=1)
     f = flow.prog.func(FLC)
+    # (c) the enumeration runs over 2^r combinations with r up to 4n = 24 (every qubit free): a counter array with an explicit
+    # element type of 8 or 16 bits wraps around silently beyond 2^8 / 2^16 - the candidates above are never looked at
+    narrow = ("int8", "uint8", "int16", "uint16")
+    for g in sorted(flow.prog.closure([f], may=True), key=lambda x: x.fq):
+        if g.module is not f.module:
+            continue
+        for c in [x for x in ast.walk(g.node) if isinstance(x, ast.Call) and ast.unparse(x.func).split(".")[-1] in ("arange", "array", "asarray", "fromiter")]:
+            dt = next((ast.unparse(k.value).split(".")[-1] for k in c.keywords if k.arg == "dtype"), None)
+            pow2 = any((isinstance(b, ast.BinOp) and isinstance(b.op, ast.Pow) and isinstance(b.left, ast.Constant) and b.left.value == 2 and not isinstance(b.right, ast.Constant)) or
+                       (isinstance(b, ast.BinOp) and isinstance(b.op, ast.LShift) and isinstance(b.left, ast.Constant) and b.left.value == 1 and not isinstance(b.right, ast.Constant)) for a in c.args for b in ast.walk(a))
+            if dt in narrow and pow2:
+                rep.finding("K9", f"{g.fq}:narrow-counter", f"{pyfacts.where(g, c)}: `{pyfacts.norm_stmt(c)[:100]}` counts up to a power of two of the kernel dimension in {dt}: the dimension reaches 4n = 24 for six free qubits (18 for a fully separable state), the counter wraps around at 2^{8 if '8' in dt else 16} and the combinations beyond are never examined (a layer that exists is reported absent)")
     by_eval = False
     if getattr(flow, "_k6_stub", None) is not None:
         try:
